@@ -1,3 +1,152 @@
 package sim
 
-func newConcSched() scheduler { panic("concurrent scheduler not built yet") }
+import (
+	"fmt"
+	"sync/atomic"
+	"testing/synctest"
+)
+
+// concSched is the concurrent-mode scheduler (C20). Every client script is a
+// task on its own goroutine; goroutines the library spawns claim a spare task
+// at their first seam. Every task parks at every seam; when all are parked or
+// finished (synctest quiescence) the seeded scheduler releases exactly one.
+// One seed is therefore one exact interleaving of real goroutines.
+//
+// The hand-off must be invisible to the race detector (a serialising scheduler
+// would otherwise give it a total happens-before order and it would never
+// report anything): the scheduler goroutine runs inside RaceDisable, tasks
+// bracket park/resume and registry look-ups with RaceDisable/RaceEnable, and
+// everything scheduler and tasks share is either written before the goroutines
+// exist (task records, wake channels) or an atomic.
+type concSched struct {
+	driver   uint64
+	rng      *Rng
+	tasks    [maxTasks]*ctask // all allocated by the driver up front
+	nClient  int
+	nLib     atomic.Int32 // spare tasks claimed by library goroutines
+	picks    []string
+	maxPicks int
+}
+
+const (
+	maxTasks   = 160
+	maxClients = 16
+)
+
+type ctask struct {
+	id     int
+	name   string
+	wake   chan int
+	gid    atomic.Uint64 // goroutine that owns the task (0 = unclaimed)
+	parked atomic.Bool
+	done   atomic.Bool
+	site   atomic.Value // string
+	rng    *Rng         // only used by the owning goroutine
+	logs   []string     // only used by the owning goroutine
+}
+
+func newConcSched() scheduler {
+	s := &concSched{driver: goid(), maxPicks: 40000}
+	for i := range s.tasks {
+		t := &ctask{id: i, wake: make(chan int)}
+		if i < maxClients {
+			t.name = fmt.Sprintf("client%d", i)
+		} else {
+			t.name = fmt.Sprintf("lib%d", i-maxClients)
+		}
+		t.site.Store("")
+		s.tasks[i] = t
+	}
+	return s
+}
+
+// lookup finds the calling goroutine's task. Only atomics are read.
+func (s *concSched) lookup(g uint64) *ctask {
+	raceDisable()
+	defer raceEnable()
+	for i := 0; i < maxClients; i++ {
+		if s.tasks[i].gid.Load() == g {
+			return s.tasks[i]
+		}
+	}
+	n := int(s.nLib.Load())
+	for i := 0; i < n && maxClients+i < maxTasks; i++ {
+		if s.tasks[maxClients+i].gid.Load() == g {
+			return s.tasks[maxClients+i]
+		}
+	}
+	return nil
+}
+
+// claimClient is called by the driver before the client goroutine starts.
+func (s *concSched) claimClient(n int, rng *Rng) *ctask {
+	t := s.tasks[n]
+	t.rng = rng
+	return t
+}
+
+func (s *concSched) yield(w *World, site string) {
+	g := goid()
+	if g == s.driver {
+		return
+	}
+	t := s.lookup(g)
+	if t == nil {
+		// a goroutine the library started by itself (mail sender)
+		raceDisable()
+		i := int(s.nLib.Add(1)) - 1
+		raceEnable()
+		if maxClients+i >= maxTasks {
+			panic("sim: too many library goroutines")
+		}
+		t = s.tasks[maxClients+i]
+		raceDisable()
+		t.gid.Store(g)
+		raceEnable()
+	}
+	s.park(t, site)
+}
+
+func (s *concSched) park(t *ctask, site string) {
+	raceDisable()
+	t.site.Store(site)
+	t.parked.Store(true)
+	<-t.wake
+	t.parked.Store(false)
+	raceEnable()
+}
+
+func (s *concSched) finish(t *ctask) {
+	raceDisable()
+	t.done.Store(true)
+	raceEnable()
+}
+
+// run drives the tasks until nothing is parked any more. Must run on the
+// driver goroutine.
+func (s *concSched) run() error {
+	raceDisable()
+	defer raceEnable()
+	for n := 0; ; n++ {
+		synctest.Wait()
+		var cands []*ctask
+		lim := maxClients + int(s.nLib.Load())
+		for i := 0; i < lim && i < maxTasks; i++ {
+			t := s.tasks[i]
+			if !t.done.Load() && t.parked.Load() {
+				cands = append(cands, t)
+			}
+		}
+		if len(cands) == 0 {
+			return nil
+		}
+		if n > s.maxPicks {
+			return fmt.Errorf("scheduler: more than %d picks", s.maxPicks)
+		}
+		t := cands[s.rng.Intn(len(cands))]
+		s.picks = append(s.picks, t.name+"@"+t.site.Load().(string))
+		t.wake <- 1
+	}
+}
+
+func (s *concSched) afterRequest(w *World) {}
